@@ -74,6 +74,9 @@ class Interp:
             return Sym(term, k)
         if k in ("obj", "dict", "opaque"):
             return Obj(term, t)
+        if k == "set":
+            from .lib import SetVal
+            return SetVal(term, t.args[0])
         if k == "proto":
             if fr is not None and fr.spec:
                 return Sym(term, "int")
@@ -796,6 +799,9 @@ class Interp:
 
     def run_function(self, f, args, kwargs, fr, node=None):
         ct = self.w.contracts.get(f.qualname) if self.use_contracts else None
+        if isinstance(ct, dict):  # receiver-dependent contract (handlers: one per protocol version)
+            recv = args[0] if args and isinstance(args[0], ClassVal) else None
+            ct = ct.get(recv.module.rsplit("_", 1)[-1]) if recv is not None else None
         if ct is not None and f is not self.top and (self.contract_filter is None or self.contract_filter(f.qualname)):
             return self.w.spec.apply_contract(self, ct, f, args, kwargs, fr, node)
         return self.run_body(f, args, kwargs)
